@@ -1,6 +1,6 @@
 (** Pinned statements of the C07 property theorems: compiled on every check, so a theorem cannot be
     weakened silently. *)
-From V Require Import Base.Util Gql.Ast Peg.Peg Gen.C07_grammar_gen C07.Builder C07.Model C07.AstEq C07.Spec C07.Proofs C07.Lexical C07.Properties.
+From V Require Import Base.Util Gql.Ast Peg.Peg Gen.C07_grammar_gen C07.Builder C07.Model C07.AstEq C07.Spec C07.Proofs C07.Lexical C07.Strings C07.Properties.
 From V Require Import Peg.PegProps.
 
 Check (C07_positions_true : forall inp file (p : pair rule),
@@ -46,6 +46,22 @@ Check (C07_pair_text_at_position : forall inp start ps (p : pair rule) file,
   no_lone_cr inp = true ->
   not_at_terminator (skipn (N.to_nat (pair_start p)) inp) ->
   at_pos inp file (to_pos inp file p) (fun t => punct_at t (as_str inp p)) = true).
+Check (C07_string_lex : forall c v pre post file sk a,
+  let val := c :: v in
+  let inp := pre ++ quote val ++ post in
+  let i := slen pre in
+  runs gql_grammar sk a (Call R_StringValue) (quote val ++ post) i
+       (Ok (post, (i + slen (quote val))%N, [string_tree val i]))
+  /\ build_string_value inp file (string_tree val i)
+     = BOk (mkPos (fst (line_col inp i)) (snd (line_col inp i)) file false, val)).
+Check (C07_string_lex_empty : forall pre post file sk a,
+  not_quote_next post ->
+  let inp := pre ++ quote [] ++ post in
+  let i := slen pre in
+  let t := Pair R_StringValue i (i + 2)%N [Pair R_EmptyStringValue i (i + 2)%N []] in
+  runs gql_grammar sk a (Call R_StringValue) (quote [] ++ post) i (Ok (post, (i + 2)%N, [t]))
+  /\ build_string_value inp file t = BOk (mkPos (fst (line_col inp i)) (snd (line_col inp i)) file false, [])).
+Check (C07_spec_reads_quote : forall v post, (v = [] -> not_quote_next post) -> string_at (quote v ++ post) = Some v).
 Print Assumptions C07_positions_true.
 Print Assumptions C07_lone_cr_refuted.
 Print Assumptions C07_block_string_refuted.
@@ -57,3 +73,6 @@ Print Assumptions C07_names_true.
 Print Assumptions C07_keywords_true.
 Print Assumptions C07_pair_spans_wf.
 Print Assumptions C07_pair_text_at_position.
+Print Assumptions C07_string_lex.
+Print Assumptions C07_string_lex_empty.
+Print Assumptions C07_spec_reads_quote.
